@@ -65,7 +65,8 @@ type controller struct {
 }
 
 const (
-	hHold = 1 // CallNY(hHold, call): 1 if this is the first rule start of a holding call
+	hHold    = 1 // CallNY(hHold, call): 1 if this is the first rule start of a holding call
+	hUpdOnce = 2 // CallNY(hUpdOnce, op): 1 for the first caller only (a rule may run several times in one call)
 )
 
 func (ct *controller) handler(r *simrt.Run, task int32, a, b, c, d int64) int64 {
@@ -75,6 +76,12 @@ func (ct *controller) handler(r *simrt.Run, task int32, a, b, c, d int64) int64 
 			return 0
 		}
 		ct.heldOnce[int(b)] = true
+		return 1
+	case hUpdOnce:
+		if ct.heldOnce[-1-int(b)] {
+			return 0
+		}
+		ct.heldOnce[-1-int(b)] = true
 		return 1
 	}
 	return 0
@@ -565,6 +572,16 @@ func RunW2(opt *W2Opt, plan, sched *simrt.Source, trace bool) *RunOut {
 	}
 	if run.End == simrt.EndInfra {
 		o.Infra = run.EndInfo
+		return o
+	}
+	if RaceMode {
+		CollectRaces(o)
+		o.NonTrivial = run.St.Decisions > 0
+		for _, ops := range w.Ops {
+			for _, op := range ops {
+				o.count("mgmt_ops/"+opKindNames[op.Kind], 1)
+			}
+		}
 		return o
 	}
 	w.Run = run
